@@ -146,6 +146,17 @@ static FWire c08(Reader& r,FReader& f) {
         o.z = Wire{ST_OK,(ll)((evals/npts-1)/4)};
         return o;
     }
+    case 8: {   // EITSourceMat: mid nelec | electrode positions (radius 0: point electrodes, injection triangle found by the library)
+        const Geometry& g = geo_of(r.z()); const size_t ne=r.n();
+        const Matrix P = getPoints(ne,f);
+        const Sensors electrodes(P,g);
+        return outMat(EITSourceMat(g,electrodes));
+    }
+    case 9: {   // SurfSourceMat: mid k  (source mesh file m<mid>/src<k>.tri), default integrator
+        const ll mid=r.z(); const Geometry& g = geo_of(mid); const ll k=r.z();
+        Mesh src("m"+std::to_string(mid)+"/src"+std::to_string(k)+".tri");
+        return outMat(SurfSourceMat(g,src));
+    }
     case 6: {   // the quadrature tables compiled into the library
         FWire o; o.z.push_back(ST_OK);
         for (unsigned ord=1; ord<4; ++ord) {
